@@ -196,6 +196,14 @@ def job_check(kind, case, rec):
         ekw["x0"] = fc
     else:
         items = [fem.SolidBody(fem.NeoHooke(mu=1.0, bulk=4.0), fc)]
+        if case["seed"] % 3 == 0:
+            # a load item on another (boundary) region as LAST item of the steps: the mesh of the result file is still that of the body
+            Xm = np.asarray(mesh.points)
+            top = np.isclose(Xm[:, 1], Xm[:, 1].max())
+            rb_ = (fem.RegionHexahedronBoundary(mesh, mask=top) if dim == 3 else fem.RegionQuadBoundary(mesh, mask=top, ensure_3d=True))
+            fb_ = fem.FieldContainer([fem.Field(rb_, dim=3) if dim == 3 else fem.FieldPlaneStrain(rb_, dim=2)])
+            items = items + [fem.SolidBodyPressure(fb_, pressure=0.05)]
+            rec.label("pressure-item-on-a-boundary-region-as-last-item")
     bounds, lc = fem.dof.uniaxial(fc, clamped=True, move=0.0)
     steps, flat, k = [], [], 0
     for ramp in case["steps"]:
@@ -310,6 +318,8 @@ def save_check(kind, case, rec):
     fc.fields[0].values[...] = 0.05 * info["h"] * rng.uniform(-1, 1, fc.fields[0].values.shape)
     ntot = int(sum(fc.fieldsizes))
     forces = rng.standard_normal(ntot) if case["forces"] else None
+    if forces is not None and case["seed"] % 5 == 0:
+        forces = np.zeros(ntot)  # a force-free state: the array is written all the same
     F = np.asarray(fc.extract()[0]).copy()
     um = fem.NeoHooke(mu=1.0, bulk=3.0)
     gradient = None
